@@ -110,9 +110,11 @@ def isPolicyValid (p : PStr) (allowList : Bool) : Bool :=
 
 def scalarValid (p : PStr) : Bool := p = .empty || isPolicyValid p false
 
+/-- the per-rule checks of `Validate`; rules of the other kinds have no `Intentions` field at all
+    (representation invariant of `Rule`: `intent = .empty`) -/
 def ruleValid (r : Rule) : Bool :=
   isPolicyValid r.pol (r.kind = .key) &&
-  (if r.kind = .service then r.intent = .empty || isPolicyValid r.intent false else true)
+  (if r.kind = .service then r.intent = .empty || isPolicyValid r.intent false else r.intent = .empty)
 
 /-- `PolicyRules.Validate` -/
 def Policy.valid (p : Policy) : Bool :=
@@ -232,7 +234,9 @@ def loadRules (m : Policy) : Option Authz := do
 def newPolicyAuthorizer (ps : List Policy) : Option Authz := loadRules (mergePolicies ps)
 
 /-- the keys `WalkPath seg` can visit: every prefix of `seg`, shortest first -/
-def pathKeys (seg : Bytes) : List Bytes := (List.range (seg.length + 1)).map fun i => seg.take i
+def pathKeys : Bytes → List Bytes
+  | [] => [[]]
+  | a :: l => [] :: (pathKeys l).map (a :: ·)
 
 /-- the entries `WalkPath seg` visits, root first -/
 def Tree.path (t : Tree) (seg : Bytes) : List (Bytes × Leaf) :=
@@ -476,9 +480,16 @@ def compile (c : Caches) (ds : List Doc) : CompileOut :=
       | none => ⟨c', none, false, h⟩
       | some z => ⟨c'.putAuthz (hashKey ds) z, some z, false, h⟩
 
+/-- parse every document (no cache) -/
+def parseAll : List Doc → Option (List Policy)
+  | [] => some []
+  | d :: ds =>
+    match parse d.rules with
+    | none => none
+    | some p => (parseAll ds).map (p :: ·)
+
 /-- what `Compile` computes without caches: parse every document, merge, load -/
-def compileFresh (ds : List Doc) : Option Authz :=
-  (ds.mapM fun d => parse d.rules).bind newPolicyAuthorizer
+def compileFresh (ds : List Doc) : Option Authz := (parseAll ds).bind newPolicyAuthorizer
 
 /-! ### identities, roles, tokens and ResolveToken (agent/consul/acl.go) -/
 
@@ -548,7 +559,9 @@ def dedupSvcs (xs : List SvcId) : List SvcId := xs.foldl (fun acc s => addSvc s 
 def dedupNodes (xs : List NodeId) : List NodeId :=
   xs.foldl (fun acc n => if n ∈ acc then acc else acc ++ [n]) []
 
-def sidecarSuffix : Bytes := "-sidecar-proxy".toUTF8.toList.map (·.toNat)
+/-- "-sidecar-proxy" -/
+def sidecarSuffix : Bytes := [45, 115, 105, 100, 101, 99, 97, 114, 45, 112, 114, 111, 120, 121]
+#guard sidecarSuffix == "-sidecar-proxy".toUTF8.toList.map (·.toNat)
 
 def wr (k : Kind) (pfx : Bool) (n : Bytes) (a : Access) : Rule := ⟨k, pfx, n, .lvl a, .empty⟩
 
@@ -584,8 +597,13 @@ def policiesFor (s : Store) (dc : Bytes) (t : Token) : List Doc :=
 inductive ResolveErr | root | notFound | compile
 deriving DecidableEq, Repr
 
-def rootNames : List Bytes := ["allow", "deny", "manage"].map fun s => s.toUTF8.toList.map (·.toNat)
-def anonymousToken : Bytes := "anonymous".toUTF8.toList.map (·.toNat)
+/-- "allow", "deny", "manage": the names `RootAuthorizer` knows -/
+def rootNames : List Bytes :=
+  [[97, 108, 108, 111, 119], [100, 101, 110, 121], [109, 97, 110, 97, 103, 101]]
+#guard rootNames == ["allow", "deny", "manage"].map fun s => s.toUTF8.toList.map (·.toNat)
+/-- "anonymous" -/
+def anonymousToken : Bytes := [97, 110, 111, 110, 121, 109, 111, 117, 115]
+#guard anonymousToken == "anonymous".toUTF8.toList.map (·.toNat)
 
 /-- `ACLResolver.ResolveToken` (ACLs enabled, no locally managed tokens, server mode) -/
 def resolveToken (s : Store) (dc : Bytes) (c : Caches) (secret : Bytes) :
